@@ -177,6 +177,69 @@ func (r *crun) apply(op harness.Op, idx int) {
 		r.submit(r.node(op.N), t1, false)
 		r.submit(r.node(op.M), t2, false)
 		r.out.Faults["client.doublespend"]++
+	case "keyclash":
+		// two honest-looking transfers of different coins to the same one-time output key (same recipient,
+		// same seed): the first goes to a node that is cut off (it admits, proposes and locks it, but can
+		// never finalize it), the second is finalized by the others; after the heal the cut-off node meets
+		// the finalized snapshot of the second while still holding the key for the first
+		a := r.pickCoin(int(op.A))
+		var b *cluster.Coin
+		for k := 1; k < 40 && a != nil && b == nil; k++ {
+			if o := r.pickCoin(int(op.A) + k); o != nil && o != a && o.Asset == a.Asset && c.FinalizedEverywhere(o.Tx) {
+				b = o
+			}
+		}
+		if a == nil || b == nil || !c.FinalizedEverywhere(a.Tx) {
+			r.out.Probes["keyclash_no_coins"]++
+			return
+		}
+		a.Spent, b.Spent = true, true
+		lone, other := r.node(op.N), r.node(op.M)
+		if lone == other || !lone.Alive || !other.Alive {
+			return
+		}
+		mk := func(coin *cluster.Coin) *common.VersionedTransaction {
+			tx := common.NewTransactionV5(coin.Asset)
+			tx.AddInput(coin.Tx, coin.Index)
+			sh := crypto.Blake3Hash([]byte("KEYCLASH" + opLabel(op, idx)))
+			tx.AddScriptOutput([]*common.Address{c.User(1)}, common.NewThresholdScript(1), coin.Amount, append(sh[:], sh[:]...))
+			signed := &common.SignedTransaction{Transaction: *tx}
+			k := int(coin.Threshold)
+			if k == 0 {
+				k = 1
+			}
+			var accounts []*common.Address
+			for _, u := range coin.Owners[:k] {
+				accounts = append(accounts, c.User(u))
+			}
+			if err := signed.SignUTXO(coin.UTXO, accounts); err != nil {
+				return nil
+			}
+			return signed.AsVersioned()
+		}
+		t1, t2 := mk(a), mk(b)
+		if t1 == nil || t2 == nil {
+			return
+		}
+		n := int(r.plan.P("nodes", 7))
+		for i := 0; i < n; i++ {
+			if i != lone.Idx {
+				c.Partition(lone.Idx, i, true)
+			}
+		}
+		until := c.Q.Now + time.Duration(4000+op.B%4000)*time.Millisecond
+		r.fault("net.isolate_node", until)
+		r.out.Faults["client.output_key_reused_across_transactions"]++
+		r.conflicts[t1.PayloadHash()], r.conflicts[t2.PayloadHash()] = true, true
+		r.submit(lone, t1, false)
+		c.Q.After(300*time.Millisecond, "keyclash.second", func() { r.submit(other, t2, false) })
+		c.Q.At(until, "heal", func() {
+			for i := 0; i < n; i++ {
+				if i != lone.Idx {
+					c.Partition(lone.Idx, i, false)
+				}
+			}
+		})
 	case "partition":
 		a, b := r.node(op.N), r.node(op.M)
 		if a == b {
